@@ -425,9 +425,20 @@ def deduplicate(keygetter=None):
             argspec = inspect.getfullargspec(original_fn)
             arg_names = argspec.args + argspec.kwonlyargs
             kwargs_defaults = get_kwargs_defaults(argspec)
-            _keygetter = lambda args, kwargs: get_args_tuple(
-                args, kwargs, arg_names, kwargs_defaults
-            )
+            if argspec.varargs is None:
+                _keygetter = lambda args, kwargs: get_args_tuple(
+                    args, kwargs, arg_names, kwargs_defaults
+                )
+            else:
+                # get_args_tuple would splice surplus positional arguments into
+                # the slots of the keyword-only parameters: keep them apart
+                num_positional = len(argspec.args)
+                _keygetter = lambda args, kwargs: (
+                    tuple(args[num_positional:]),
+                    get_args_tuple(
+                        args[:num_positional], kwargs, arg_names, kwargs_defaults
+                    ),
+                )
 
         return decorate(DeduplicateDecorator, fun.task_cls, _keygetter)(fun)
 
